@@ -20,6 +20,19 @@ def run(c):
     if r["violated"]:
         raise vlib.ToolError("Concurrency.tla violates its own properties (spec bug):\n" + vlib.tail(r["out"]))
     c.add_model(r, "Concurrency.tla Threads=%s x 2 calls x 3 once-cells: every Invoke sees an initialised pointer, initialiser runs exclusively, results schedule-free, termination under weak fairness" % threads)
+    # (2a) schedules drawn by TLC from the composition model System.tla (spec -> impl), replayed on real instances
+    nsched = 120 if c.thorough else 25
+    cfg2 = os.path.join(wd, "System.cfg")
+    open(cfg2, "w").write("CONSTANTS\n NC = 3\n NH = 4\n DEPTH = %d\nSPECIFICATION Spec\nCHECK_DEADLOCK FALSE\nINVARIANT Emit\nPROPERTY Independent\n" % (60 if c.thorough else 40))
+    rs = vlib.run_tlc("System", cfg=cfg2, workers=1, timeout=1200, extra=["-simulate", "num=%d" % nsched, "-depth", "70", "-seed", str(c.seed)], tag="system")
+    if rs["errors"] or rs["violated"]:
+        raise vlib.ToolError("System.tla simulation failed:\n" + vlib.tail(rs["out"]))
+    scheds = [json.loads(json.loads(ln)) for ln in rs["out"].splitlines() if ln.startswith('"[[')]
+    if len(scheds) < nsched:
+        raise vlib.ToolError("TLC produced %d schedules, expected %d" % (len(scheds), nsched))
+    spath = os.path.join(wd, "schedules.txt")
+    open(spath, "w").write("\n".join(json.dumps(x) for x in scheds) + "\n")
+    c.cov["tlc_simulated_schedules"] = len(scheds)
     # (2) one thread interleaving mixed instances
     traces = 0
     for build in ["std-rel", "std-dbg"]:
@@ -37,6 +50,14 @@ def run(c):
         recs, eps, r2, _ = vlib.validate_episodes(c, "TraceSystem", trace, lambda e, first: {"ev": e["ev"], "i": e.get("i"), "res": e.get("res", "").split(":")[0], "build": build},
                                                   canary, "interleaved instances (%s)" % build)
         if "REFMISMATCH" in r2["out"]:
+            raise vlib.ToolError("harness reference bookkeeping disagrees with the monitor's ghost message (harness bug)")
+        traces += len(eps)
+        c.add_events([e for e in recs if e["ev"] not in ("sys", "ref")], key=lambda e: {k: v for k, v in e.items() if k != "k"}, sample=1)
+        trace = os.path.join(wd, "sched-%s.ndjson" % build)
+        vlib.run_harness(binary, ["c18-schedules", "--script", spath, "--seed", str(c.seed)], out=trace)
+        recs, eps, r3, _ = vlib.validate_episodes(c, "TraceSystem", trace, lambda e, first: {"ev": e["ev"], "i": e.get("i"), "res": e.get("res", "").split(":")[0], "build": build},
+                                                  canary, "TLC-simulated schedule (%s)" % build)
+        if "REFMISMATCH" in r3["out"]:
             raise vlib.ToolError("harness reference bookkeeping disagrees with the monitor's ghost message (harness bug)")
         traces += len(eps)
         c.add_events([e for e in recs if e["ev"] not in ("sys", "ref")], key=lambda e: {k: v for k, v in e.items() if k != "k"}, sample=1)
@@ -83,7 +104,9 @@ def run(c):
     c.cov["cold_events"] = total
     c.cov["cold_distinct_outcomes_validated"] = len(distinct)
     c.cov["traces_validated_against_impl"] = traces
-    c.cov["rule"] = ("(1) TLC explores every interleaving of Concurrency.tla (threads x calls x lazily initialised cells + racy feature cache). (2) one thread interleaves operations on 2-3 ciphers and "
+    c.cov["rule"] = ("(1) TLC explores every interleaving of Concurrency.tla (threads x calls x lazily initialised cells + racy feature cache). (2) TLC draws schedules from the composition model System.tla "
+                     "(3 ciphers + up to 4 hashers, -simulate) and they are replayed on real instances - ciphers 1 and 3 sharing key and nonce but not round count, hashers 1 and 2 of one algorithm; "
+                     "in addition one thread interleaves operations on 2-3 ciphers and "
                      "2-5 hashers (clones included) of random types; TLC validates with TraceSystem.tla, the product of the per-instance ideal specifications, so a step on one instance can only be "
                      "explained by that instance's own history. (3) freshly exec'd processes (cold lazy_static / CPU-feature cache) release 2..64 threads through a barrier; every thread makes the "
                      "process's first calls into Groestl-224/256/384/512 (all six function-pointer cells), BLAKE, JH, Skein and three ChaCha types, each starting with a different algorithm; "
